@@ -16,7 +16,7 @@ RULE = ("random merged S(Q) (Q>0, 8-40 points), r grid (5-25 points, Rmin 0 or >
         "correction flag, cutoff; a random legal sequence of 1-8 operations (thorough 1-30) out of transform / filter / lorch / "
         "keen-F(Q) / keen-G(r); every step is compared with a direct library call and with the other orders; "
         "non-trivial = the sequence contains a filter and at least one repeated operation")
-DIST = ["rsf", "lowq", "nops", "retuned", "qwin"]
+DIST = ["rsf", "lowq", "nops", "retuned", "qwin", "cutkind"]
 SHRINK = None
 TRUSTED = ["lean/PystogVerif/Model/Workflow.lean is a hand-written state machine for the five workflow steps whose numeric work is the "
            "generated code; tied to /repo by the op-sequence correspondence (all master dictionaries after every step)"]
@@ -38,9 +38,16 @@ def gen(rng, i, tier):
     if rng.random() < 0.35:
         for _ in range(int(rng.integers(1, 3))):
             ops.insert(int(rng.integers(1, len(ops) + 1)), int(rng.integers(5, 7)))
-    return dict(q=tolist(q), s=tolist(s), rsf=int(rng.integers(0, 3)), rho=float(10 ** rng.uniform(-2, -0.5)), bcoh=float(rng.uniform(0.5, 6)),
-                lowq=bool(rng.random() < 0.4), cutoff=float(rng.uniform(0.6, 2.0)), rmin=rmin, rmax=float(rng.uniform(3, 6)),
-                rdelta=float(rng.choice([0.1, 0.2, 0.25])), ops=ops, nops=nops, rho2=float(10 ** rng.uniform(-2, -0.5)), bcoh2=float(rng.uniform(0.5, 6)),
+    cutoff = float(rng.uniform(0.6, 2.0))
+    rdelta = float(rng.choice([0.1, 0.2, 0.25]))
+    cutkind = "ordinary"
+    if rng.random() < 0.15:
+        # a cutoff that leaves exactly one stored r point in [0, cutoff] (the first grid point itself, or anywhere below the second)
+        cutoff = rmin if rng.random() < 0.4 else rmin + float(rng.uniform(0.05, 0.9)) * rdelta
+        cutkind = "one-point"
+    return dict(cutkind=cutkind, q=tolist(q), s=tolist(s), rsf=int(rng.integers(0, 3)), rho=float(10 ** rng.uniform(-2, -0.5)), bcoh=float(rng.uniform(0.5, 6)),
+                lowq=bool(rng.random() < 0.4), cutoff=cutoff, rmin=rmin, rmax=float(rng.uniform(3, 6)),
+                rdelta=rdelta, ops=ops, nops=nops, rho2=float(10 ** rng.uniform(-2, -0.5)), bcoh2=float(rng.uniform(0.5, 6)),
                 retuned=any(o >= 5 for o in ops),
                 qwin=(None if rng.random() < 0.6 else
                       [float(rng.choice([0.0, 0.1])), float(rng.choice([q[-1] + 5.0, q[-1] - 0.003, q[len(q) // 2] + 0.004, q[-1]]))]))
